@@ -331,7 +331,7 @@ func init() {
 
 	// ------------------------------------------------------------------ C02
 	register("C02", func(c *engine.Ctx) {
-		c.Rule = "random structured schemas (tree fragment, plus formats) with schema-directed VALID documents (boundary values of every constraint, optional properties present or absent, null where allowed, nested objects and arrays); every document the reference calls valid must be accepted and every non-empty declared value must re-appear unchanged, at the same place, in json.Marshal of the decoded value. Near-duplicates: pairs of schema nodes whose Go type names collide (sibling properties, definitions, definition vs property, array items) and whose schemas differ in exactly one keyword (24 perturbations: format, type, each bound, required, enum members, items, default, nullable, annotation only, identical), both orders, documents valid for the one and for the other at both positions. The broad random stream (all features, mutated documents) additionally ties model and implementation. Distinct = distinct (stream, verdicts, document shape)."
+		c.Rule = "random structured schemas (tree fragment, plus formats) with schema-directed VALID documents (boundary values of every constraint, optional properties present or absent, null where allowed, nested objects and arrays), a third of the programs also generated with --min-sized-ints and bounds near the integer type limits; every document the reference calls valid must be accepted and every non-empty declared value must re-appear unchanged, at the same place, in json.Marshal of the decoded value. Near-duplicates: pairs of schema nodes whose Go type names collide (sibling properties, definitions, definition vs property, array items) and whose schemas differ in exactly one keyword (24 perturbations: format, type, each bound, required, enum members, items, default, nullable, annotation only, identical), both orders, documents valid for the one and for the other at both positions. The broad random stream (all features, mutated documents) additionally ties model and implementation. Distinct = distinct (stream, verdicts, document shape)."
 		c.Proofs([]string{"GJS.Props.C02", "GJS.Proofs.Mono", "GJS.Proofs.Stable"}, []string{
 			"GJS.Proofs.decode_err_mono", "GJS.Proofs.decode_stable",
 			"GJS.Props.C02.prim_roundtrip", "GJS.Props.C02.validators_only_reject_on_constraints", "GJS.Props.C02.unmarshal_accept_stable",
@@ -348,7 +348,23 @@ func init() {
 			for k := 0; k < 10; k++ {
 				docs = append(docs, g.Sample(root, 0))
 			}
-			pcs = append(pcs, baseCase("c02-valid", root, docs))
+			pc := baseCase("c02-valid", root, docs)
+			pcs = append(pcs, pc)
+			if i%3 == 0 {
+				// the same valid documents under --min-sized-ints, with bounds near the integer type limits (no enums: the
+				// integer-enum carrier under the flag is the listed finding K23)
+				om := o
+				om.BigInts, om.Enums = true, false
+				gm := sgen.New(c.R, om)
+				rootM := gm.Root("")
+				docsM := []any{gm.FullSample(rootM, 0)}
+				for k := 0; k < 10; k++ {
+					docsM = append(docsM, gm.Sample(rootM, 0))
+				}
+				pm := baseCase("c02-valid", rootM, docsM, "min-sized-ints")
+				pm.Cfg.MinSizedInts = true
+				pcs = append(pcs, pm)
+			}
 		}
 		// broad correspondence stream
 		ao := sgen.AllOpts()
@@ -369,6 +385,10 @@ func init() {
 			for i := range r.DocJSON {
 				if i >= len(r.ModelRuns) || r.ModelRuns[i].Spec != "valid" {
 					c.Count("c02", "not-valid-skipped")
+					continue
+				}
+				if strings.HasPrefix(r.ModelRuns[i].J, "unmodelled") {
+					c.Count("c02", "outside the modelled run-time domain (skipped): "+r.ModelRuns[i].J)
 					continue
 				}
 				if !isASCII(r.DocJSON[i]) {
